@@ -327,14 +327,14 @@ func init() {
 		}
 		depth := 4
 		if tier == "thorough" {
-			depth = 6
+			depth = 7
 		}
 		st1 := bfsPool(run, p, "ops", arg, depth, 0, func([]string) []string { return sops })
 		// client side
 		cops := []string{"L1", "L12", "L1b", "L1p", "L0b", "Lbad", "Lmix", "Ldupforged", "Ldupgenuine", "Ldup0forged", "Ldupbanfirst", "M", "Mdup", "Mouter", "Minner", "Mother", "restart"}
 		cdepth := 4
 		if tier == "thorough" {
-			cdepth = 5
+			cdepth = 6
 		}
 		st2 := bfsPool(run, p, "c17cli", struct{}{}, cdepth, 0, func([]string) []string { return cops })
 		st := bfsPoolStats{States: st1.States + st2.States, Transitions: st1.Transitions + st2.Transitions, Depth: st1.Depth, Outcomes: st2.Outcomes, HarnessErrors: st1.HarnessErrors + st2.HarnessErrors, DeepChecked: st1.DeepChecked + st2.DeepChecked, Capped: st1.Capped || st2.Capped}
